@@ -9,7 +9,7 @@ META = {
     "technique": "Coq proof (per-operation theorems over the coordinator model: placement targets, affinity, sweep exactness, heartbeat recovery) "
                  "+ model/implementation differential on the real Coordinator over a virtual clock",
     "design_ref": "DESIGN.md §7 C33",
-    "level_text": "proof",
+    "level_text": "Coq theorems: placement targets of deploy / migration / failover are available workers, pinned pipelines go to their available pinned worker, the sweep marks exactly the Ready workers older than the timeout and nothing else marks, a heartbeat recovers; no axioms. Model tied to the code by a differential run over a virtual clock on every check",
     "level_note": "Theorems are about coq/theories/Coord/Model.v (is_available, RoundRobin / LeastLoaded placement, affinity rule of plan_deploy_group, "
                   "plan_migrate_pipeline / migrate_pipeline target check, failover / drain / rebalance target choice, health_sweep, heartbeat), tied to the code by the "
                   "differential run. Time is a virtual clock in whole seconds realised by rewriting the public last_heartbeat field (timeout = T s + 0.5 s), so the "
